@@ -79,4 +79,10 @@ MUTANTS = [
  dict(id='C20-resource-unguarded', file='src/deep/api/deep.py', old="            except Exception:\n                deep.logging.exception(\"Failed to process plugin resource {}\", provider.name)", new="            except ValueError:\n                deep.logging.exception(\"Failed to process plugin resource {}\", provider.name)", props=['C20']),
  dict(id='C20-ctor-fail-aborts', file='src/deep/api/plugin/__init__.py', old="            logging.debug(\"Could not load plugin %s: %s\", plugin, e)\n", new="            logging.debug(\"Could not load plugin %s: %s\", plugin, e)\n            break\n", props=['C20']),
  dict(id='C20-sort-reverse', file='src/deep/api/plugin/__init__.py', old="    loaded.sort(key=lambda pl: pl.order() or 0)\n", new="    loaded.sort(key=lambda pl: pl.order() or 0, reverse=len(loaded) > 2)\n", props=['C20']),
+ dict(id='C16-ids-swapped', file='src/deep/processor/context/log_action.py', old="tracepoint_logger.log_tracepoint(self.log, self.action.id, ctx.id)", new="tracepoint_logger.log_tracepoint(self.log, ctx.id, self.action.id)", props=['C16']),
+ dict(id='C16-prefix-dropped', file='src/deep/processor/context/log_action.py', old='        log_msg = "[deep] %s" % FormatExtractor()', new='        log_msg = ("[deep] %s" if watch_results or "{" in log_msg else "%s") % FormatExtractor()', props=['C16']),
+ dict(id='C16-first-field-only', file='src/deep/processor/context/log_action.py', old="                watch_results.append(watch)\n", new="                if len(watch_results) == 0:\n                    watch_results.append(watch)\n", props=['C16']),
+ dict(id='C16-error-text-lost', file='src/deep/processor/context/action_context.py', old='            return WatchResult(source, watch, None, str(e)), {}, str(e)', new='            return WatchResult(source, watch, None, str(e)), {}, ""', props=['C16']),
+ dict(id='C16-log-twice-with-snapshot', file='src/deep/api/tracepoint/trigger.py', old="    if SNAPSHOT not in args or args[SNAPSHOT] != NO_COLLECT:\n        return None\n", new="    if SNAPSHOT in args and args[SNAPSHOT] == 'collect':\n        return None\n", props=['C16', 'C11']),
+ dict(id='C16-str-of-repr', file='src/deep/processor/variable_set_processor.py', old="        try:\n            return str(value)\n        except BaseException:\n            return f'{type(value)}@{id(value)}'", new="        try:\n            return str(value) if not isinstance(value, (list, dict)) else 'Size: %d' % len(value)\n        except BaseException:\n            return f'{type(value)}@{id(value)}'", props=['C16']),
 ]
